@@ -222,7 +222,7 @@ func (p *HTTPProxy) ServeHTTP(w http.ResponseWriter, r *http.Request) {
 
 	var h http.Handler
 	switch {
-	case upgrade == "websocket" || upgrade == "Websocket":
+	case isWebsocketUpgrade(upgrade):
 		r.URL = targetURL
 		if targetURL.Scheme == "https" || targetURL.Scheme == "wss" {
 			h = newWSHandler(targetURL.Host, func(network, address string) (net.Conn, error) {
